@@ -74,6 +74,18 @@ def digest_twin_reloads():
     return out
 
 
+def ordering_toggles():
+    """the rules stay, only defaults.glob_disable_ordering changes: the answers must follow the mode"""
+    out = []
+    for m1, m2, probes in ((b"*.b", b"a.*", [b"a.b", b"c.b", b"a.d", b"c.d"]), (b"*.*.c", b"a.b.*", [b"a.b.c", b"x.b.c", b"a.b.x"]), (b"x.*", b"x.y", [b"x.y", b"x.z"])):
+        rules = lambda: [GM.rule(m1, b"first", help=b"r0", labels=[(b"part", b"$1")]), GM.rule(m2, b"second", help=b"r1", labels=[(b"part", b"$1")])]
+        on, off = (GM.defaults(disable_ordering=True), rules()), (None, rules())
+        on2, off2 = (GM.defaults(disable_ordering=True), rules()), (GM.defaults(), rules())
+        out.append(([(on, "ok"), (off, "ok"), (on2, "ok"), (off2, "ok")], probes))
+        out.append(([(off, "ok"), (on, "ok"), (off2, "ok")], probes))
+    return out
+
+
 def resplit_pairs():
     """pairs of glob-only configurations (unordered mode and ordered mode) whose match strings concatenate to the same bytes with the
     rule boundary at another place - a reload that "recognises" the rule set by such a fingerprint keeps stale analysis results"""
@@ -104,7 +116,7 @@ def _run(rep, tier, seed, replay):
         seqs = [rp["seq"]]
     cases, meta = [], []
     classes = {}
-    directed = [] if replay else resplit_pairs() + digest_twin_reloads()
+    directed = [] if replay else resplit_pairs() + digest_twin_reloads() + ordering_toggles()
     for it in range(0 if replay else nseq + len(directed)):
         if it < len(directed):
             steps, probes = directed[it]
@@ -135,6 +147,16 @@ def _run(rep, tier, seed, replay):
                     cfg = (cfg[0], [r for r in cfg[1] if r["match_type"] != b"regex"])     # glob only
             steps.append((cfg, e))
             classes[e] = classes.get(e, 0) + 1
+            if e == "ok" and rnd.random() < 0.3:
+                # the same rules again with exactly ONE key of the defaults section changed: what "nothing changed" shortcuts key on
+                d0 = dict(cfg[0] or GM.defaults())
+                key = rnd.choice(["disable_ordering", "disable_ordering", "ttl", "observer_type", "match_type"])
+                d0[key] = {"disable_ordering": not d0["disable_ordering"], "ttl": 0 if d0["ttl"] else 5 * 10**9,
+                           "observer_type": None if d0["observer_type"] else b"histogram", "match_type": None if d0["match_type"] else b"glob"}[key]
+                if key == "observer_type":
+                    d0["timer_type"] = None
+                steps.append(((d0, [dict(r) for r in cfg[1]]), "ok"))
+                classes["ok"] = classes.get("ok", 0) + 1
         qs = QUERIES + [(rnd.choice(["counter", "gauge", "observer"]), GG.random_name(rnd)) for _ in range(6)]
         qops = [GM.query_op(t, n) for t, n in qs]
         for cache in (("none", 0), ("lru", 3 if len(cases) % 4 else 1000)):      # a large cache keeps entries across the reload
